@@ -386,16 +386,28 @@ class StructureMetaType(MetaType):
         cls.__fields__.append(field)
 
         if not cls.__updating__:
-            cls.commit()
+            try:
+                cls.commit()
+            except Exception:
+                # The field can't be part of this structure (e.g. a duplicate name), don't keep it around
+                cls.__fields__.pop()
+                raise
 
     @contextmanager
     def start_update(cls) -> Iterator[None]:
+        count = len(cls.__fields__)
         try:
             cls.__updating__ = True
             yield
         finally:
-            cls.commit()
             cls.__updating__ = False
+            try:
+                cls.commit()
+            except Exception:
+                # The fields added in this update can't be committed, go back to the fields we had
+                del cls.__fields__[count:]
+                cls.commit()
+                raise
 
     def commit(cls) -> None:
         classdict = cls._update_fields(cls.__fields__, cls.__align__)
